@@ -127,6 +127,8 @@ pub struct WorkerOut {
     pub expected_abort: u64,
     #[serde(default)]
     pub soft_other: u64,
+    #[serde(default)]
+    pub skipped_after_watchdog: u64,
     pub label_hist: Vec<u64>,
     pub counters: Vec<u64>,
     pub nontrivial_hashes: Vec<u64>,
@@ -300,6 +302,13 @@ pub fn worker_k<K: Kind>(args: &[String]) -> i32 {
     }
     let state = std::cell::RefCell::new(State { out, failed: false, hashes: BTreeSet::new(), first_fail: None });
     let result = runner.run(&strat, |s| {
+        // a tree that makes cases hang must not make the check run for hours:
+        // after three watchdog hits the remaining cases of this worker are skipped
+        // (the check then ends undecided, exit 2)
+        if state.borrow().out.timeout >= 3 {
+            state.borrow_mut().out.skipped_after_watchdog += 1;
+            return Ok(());
+        }
         let r = K::run(&id, tier, &s);
         let mut guard = state.borrow_mut();
         let State { out, failed, hashes, first_fail } = &mut *guard;
@@ -688,6 +697,7 @@ pub fn launcher_k<K: Kind>(args: &[String]) -> i32 {
         merged.timeout += wo.timeout;
         merged.expected_abort += wo.expected_abort;
         merged.soft_other += wo.soft_other;
+        merged.skipped_after_watchdog += wo.skipped_after_watchdog;
         for i in 0..64 {
             merged.label_hist[i] += wo.label_hist[i];
         }
@@ -719,7 +729,8 @@ pub fn launcher_k<K: Kind>(args: &[String]) -> i32 {
     // sweep; the thorough tier runs all of it
     let quick_slice = tier == Tier::Quick && arg(args, "--sweep").is_none();
     let stride: u64 = if !quick_slice { 1 } else if id == "C11" { 8 } else { 48 };
-    let do_sweep = SWEEP_PROPS.contains(&id.as_str()) && !args.iter().any(|a| a == "--no-sweep");
+    // once a stage has found a violation the later stages are skipped
+    let do_sweep = SWEEP_PROPS.contains(&id.as_str()) && !args.iter().any(|a| a == "--no-sweep") && failures.is_empty() && violations.is_empty();
     if do_sweep {
         let limit = arg(args, "--sweep").and_then(|s| s.parse::<u64>().ok()).unwrap_or(u64::MAX);
         let mut kids = vec![];
@@ -792,7 +803,7 @@ pub fn launcher_k<K: Kind>(args: &[String]) -> i32 {
     // to 8k (quick) / 120k (thorough) objects under the same oracles
     let mut big_info = serde_json::json!(null);
     let mut big_failures: Vec<Failure> = vec![];
-    if BIG_PROPS.contains(&id.as_str()) && !args.iter().any(|a| a == "--no-big") {
+    if BIG_PROPS.contains(&id.as_str()) && !args.iter().any(|a| a == "--no-big") && failures.is_empty() && violations.is_empty() {
         let big_total: u64 = arg(args, "--big").and_then(|s| s.parse().ok()).unwrap_or(if tier == Tier::Thorough { 8000 } else if id == "C09" { 1600 } else { 640 });
         let mut kids = vec![];
         for i in 0..nworkers {
@@ -836,6 +847,7 @@ pub fn launcher_k<K: Kind>(args: &[String]) -> i32 {
             objs += wo.counters[20];
             merged.internal += wo.internal;
             merged.timeout += wo.timeout;
+            merged.skipped_after_watchdog += wo.skipped_after_watchdog;
             merged.other_view += wo.other_view;
             merged.expected_abort += wo.expected_abort;
             merged.internal_msgs.extend(wo.internal_msgs);
@@ -960,6 +972,7 @@ pub fn launcher_k<K: Kind>(args: &[String]) -> i32 {
                 "ended_by_known_finding": merged.known,
                 "arena_exhausted": merged.exhausted,
                 "watchdog": merged.timeout,
+                "skipped_after_watchdog": merged.skipped_after_watchdog,
                 "internal_error": merged.internal,
             },
             "inconclusive_examples": merged.other_msgs.iter().take(3).collect::<Vec<_>>(),
